@@ -53,6 +53,12 @@ SETTINGS = {
     # same method/elements/tables as "am1", but one parameter column is supplied by the caller
     "am1_learned": lambda: dict(sp.make_params("AM1", solver="adaptive", eps=1e-10), learned=["g_ss"]),
     "am1_learned2": lambda: dict(sp.make_params("AM1", solver="adaptive", eps=1e-10), learned=["U_ss", "zeta_p"]),
+    # an explicit element list covering several molecules: ONE driver / MD engine / Constants object legitimately serves
+    # molecules of the same shape with other elements in the same slots (H2O [8,1,1] and HCN [7,6,1])
+    "am1e": lambda: dict(sp.make_params("AM1", solver="adaptive", eps=1e-10), elements=[0, 1, 6, 7, 8]),
+    "am1e_md": lambda: dict(sp.make_params("AM1", solver="adaptive", eps=1e-8), elements=[0, 1, 6, 7, 8]),
+    "am1e_anal": lambda: dict(sp.make_params("AM1", solver="adaptive", eps=1e-10, force_mode="analytical"), elements=[0, 1, 6, 7, 8]),
+    "pm3e_anal": lambda: dict(sp.make_params("PM3", solver="adaptive", eps=1e-10, force_mode="analytical"), elements=[0, 1, 6, 7, 8]),
     # unsupported combination that is refused INSIDE the SCF step (NotImplementedError), not in Molecule()
     "am1_uhf_pulay": lambda: sp.make_params("AM1", solver="pulay", eps=1e-8, uhf=True),
 }
@@ -86,6 +92,14 @@ JOBS = {
     "Q": ("sp32", "am1_loose", "H2O"),  # a single-precision calculation (default dtype float32, restored afterwards)
     "Q2": ("sp32", "pm3_loose", "CH4"),
     "B2": ("sp", "pm3_loose", "CH4"),
+    # same shape, other elements in the same slots, objects shared in flavour D (driver, MD engine, Constants)
+    "K1": ("sp", "am1e", "H2O"),
+    "K2": ("sp", "am1e", "HCN"),
+    "K3": ("md", "am1e_md", "H2O", "bomd"),
+    "K4": ("md", "am1e_md", "HCN", "bomd"),
+    # the same molecule under two Hamiltonians with the analytical force evaluator, Constants object shared in flavour D
+    "KA": ("sp", "am1e_anal", "H2CO"),
+    "KP": ("sp", "pm3e_anal", "H2CO"),
     "P": ("sp", "pm6sp", "H2CO"),
     "PS": ("sp", "pm6sp_star", "H2CO"),
 }
@@ -117,6 +131,7 @@ class Ctx:
         self.drivers = {}
         self.pending = {}  # job -> (loss, molecule) for split forward/backward
         self.engines = {}  # (settings, engine kind) -> MD engine object shared by flavour D
+        self.const = None  # the Constants object shared by every flavour-D single point (one `const` per user script)
 
 
 def run_event(ev, ctx):
@@ -142,7 +157,8 @@ def run_event(ev, ctx):
         if kind == "sp":
             molecule, es_new = None, None
             if reuse == "D":
-                molecule, es_new = sp.build(mol, params)
+                molecule, es_new = sp.build(mol, params, const=ctx.const)
+                ctx.const = molecule.const
                 es = ctx.drivers.setdefault(sname, es_new)
             else:
                 molecule, es = sp.build(mol, params)
@@ -344,6 +360,8 @@ def run(chk, tier, seed):
             kinds.append("D")
         if j in ("N1", "N2"):
             kinds.append("D")
+        if j.startswith("K"):
+            kinds = ["D"]
         events += [f"{j}:{r}" for r in kinds]
     # reference: every event alone in a fresh process (twice: determinism of the harness itself)
     ref1 = pmap(t_sequence, [[e] for e in events], chunk=1, timeout=900, progress="C15 references")
@@ -373,7 +391,7 @@ def run(chk, tier, seed):
     if tier == "quick":
         stateful = ["A2:d", "A3:D", "E:d", "G:f", "X2:f", "AL:f"]
         probes_small = ["A:d", "F:f", "AL2:f"]
-        probes1 = ["A:d", "A2:d", "E2:d", "F:f", "L:f", "H:d", "D:d", "A:D", "AL:f", "A4:d", "PS:f", "P:d", "B2:f", "Q:f", "N2:D"]
+        probes1 = ["A:d", "A2:d", "E2:d", "F:f", "L:f", "H:d", "D:d", "A:D", "AL:f", "A4:d", "PS:f", "P:d", "B2:f", "Q:f", "N2:D", "K1:D", "K3:D", "KP:D"]
     else:
         probes1 = events
     for p in probes1:  # depth 1: full event alphabet as prefix
@@ -388,9 +406,9 @@ def run(chk, tier, seed):
         # dictionaries and drivers, differentiable jobs, refused calls, learned lists, MD engines, single precision,
         # another parameter directory) in front of every probe of the medium probe set; depth 3 on the small sets.
         # (the full alphabet squared in front of every event is 1.4e5 two-second executions: beyond the budget)
-        stateful2 = stateful + ["A4:d", "L2:d", "M2:d", "Q:f", "Q2:d", "PS:d", "P:d", "AL2:f", "D:d", "E2:D", "M:d", "N1:D"]
+        stateful2 = stateful + ["A4:d", "L2:d", "M2:d", "Q:f", "Q2:d", "PS:d", "P:d", "AL2:f", "D:d", "E2:D", "M:d", "N1:D", "K2:D", "K4:D", "KA:D"]
         stateful2 = [e for e in dict.fromkeys(stateful2) if e in events]
-        probes_med = ["A:d", "A:D", "A2:d", "E2:d", "F:f", "F2:f", "L:f", "M:f", "H:d", "D:d", "AL:f", "A4:d", "PS:f", "P:d", "B2:f", "Q:f", "C:f", "N2:D"]
+        probes_med = ["A:d", "A:D", "A2:d", "E2:d", "F:f", "F2:f", "L:f", "M:f", "H:d", "D:d", "AL:f", "A4:d", "PS:f", "P:d", "B2:f", "Q:f", "C:f", "N2:D", "K1:D", "K3:D", "KP:D"]
         chk.extra["thorough_depth2_prefix_alphabet"] = stateful2
         chk.extra["thorough_depth2_probes"] = probes_med
         for a, b in itertools.product(stateful2, repeat=2):
